@@ -17,7 +17,23 @@ FULL_OUTPUT = True
 
 
 def gen_cases(tier, rng):
+    # per-message conversion (MakeDefaultRtmpHeader + chunking, FLV tag, @setDataFrame handling): byte-exact
+    sdf = fanout.SDF
+    metas = [fanout.amf_str(b"onMetaData") + bytes([8, 0, 0, 0, 0, 0, 0, 9]), sdf + fanout.amf_str(b"onMetaData") + bytes([3, 0, 0, 9]),
+             sdf, bytes([2, 0, 200, 65]), bytes([12, 0, 0, 0, 13]) + b"@setDataFrame" + fanout.amf_str(b"onMetaData"), bytes([2, 0]), b"\x05"]
+    for t in (8, 9, 18):
+        for ts in (0, 1, 16777214, 16777215, 16777216, 4294967295):
+            for n in (1, 2, 5, 4095, 4096, 4097, 8191, 8192, 8193, 70000 if tier == "thorough" else 12289):
+                yield Case("c01.conv %d %d %s" % (t, ts, payload_tok(rng, n)), cls="conv")
+    for mp in metas:
+        for ts in (0, 16777215):
+            yield Case("c01.conv 18 %d %s" % (ts, hex_tok(mp)), cls="conv-meta")
     yield from fanout.gen_histories(tier, rng)
+
+
+def split_impl(c, out):
+    """popen= (relay-push sessions still open at the end) is observed on the implementation only"""
+    return "|".join(p for p in out.split("|") if not p.startswith(("hook=", "popen="))) or "-"
 
 
 def nontrivial(c, out):
@@ -26,6 +42,8 @@ def nontrivial(c, out):
 
 def oracle(c, out):
     """C01 evaluated on the implementation's observation, from the history text alone."""
+    if c.line.startswith("c01.conv"):
+        return None
     if out.startswith(("panic@", "crash@", "timeout", "err", "bad")):
         return (False, "implementation failed: " + out)
     cfg, evs = fanout.parse_case(c.line)
@@ -54,8 +72,8 @@ def oracle(c, out):
         elif e[0] == "L":
             leaves.setdefault(e[1], pos)
     for cid, k in kinds.items():
-        if k == "t":
-            continue   # TS consumers: C02 / C06
+        if k == "t" or obs.get(cid) == [["!"]]:
+            continue   # TS consumers: C02 / C06; consumers whose connection was broken are not observed
         segs = obs.get(cid)
         if segs is None:
             return (False, "consumer %s missing from the observation" % cid)
